@@ -249,6 +249,16 @@ func voteChain(tslot, bslot uint64, variant int) (troot uint64, anc [][2]uint64)
 	return 3, [][2]uint64{{3, at}}
 }
 
+// denseChain: a block in EVERY slot between the target epoch's start (the checkpoint block, root 3) and the voted
+// block: the parent walk needs bslot - tslot steps.
+func denseChain(tslot, bslot uint64) [][2]uint64 {
+	var anc [][2]uint64
+	for sl := bslot - 1; sl > tslot; sl-- {
+		anc = append(anc, [2]uint64{100 + (bslot - sl), sl})
+	}
+	return append(anc, [2]uint64{3, tslot})
+}
+
 func minU(a, b uint64) uint64 {
 	if a < b {
 		return a
@@ -286,6 +296,12 @@ func chainAlts(withBlockSlot bool) []variable {
 				} else if t >= 2 {
 					// the voted block itself is the checkpoint block, the target names its parent
 					k.setU("troot", 3).set("anc", fmt.Sprintf("3:%d", minU(k.u("bslot"), t)-1))
+				}
+			}),
+			m("dense-chain", func(k *kvs) {
+				t := k.u("tepoch") * uint64(mustCtx(k).spec.SLOTS_PER_EPOCH)
+				if k.u("bslot") > t && k.u("bslot")-t < 200 {
+					k.setU("troot", 3).set("anc", fmtPairs(denseChain(t, k.u("bslot"))))
 				}
 			}),
 			m("target=block-after-epoch-start", func(k *kvs) { k.setU("troot", k.u("broot")) }),
@@ -337,6 +353,21 @@ func attFamily(o hreg.Opts) *family {
 	// SLOTS_PER_EPOCH = 32: epoch 2 = slots 64..95
 	for _, sl := range []uint64{64, 77, 95, 40} {
 		f.bases = append(f.bases, attBase("m", sl, 0, int(sl)))
+	}
+	// SLOTS_PER_EPOCH = 48 (epoch 3 = slots 144..191, altair; epoch 1 = 48..95, phase0), every slot of the chain filled:
+	// votes for blocks up to 46 slots after the epoch start need that many parent steps
+	for _, sl := range []uint64{144, 145, 177, 178, 179, 185, 191, 48 + 35, 48 + 47} {
+		k := attBase("w", sl, 0, int(sl))
+		if t := (sl / 48) * 48; k.u("bslot") > t {
+			k.setU("troot", 3).set("anc", fmtPairs(denseChain(t, k.u("bslot"))))
+		}
+		f.bases = append(f.bases, k)
+	}
+	// SLOTS_PER_EPOCH = 4, 3 committees per slot
+	for _, sl := range []uint64{12, 13, 15, 5, 7} {
+		for idx := uint64(0); idx < 3; idx++ {
+			f.bases = append(f.bases, attBase("t", sl, idx, int(sl+idx)))
+		}
 	}
 	bitsAlts := []mutation{
 		m("bits:none", set("bits", "-")),
@@ -482,6 +513,16 @@ func aggFamily(o hreg.Opts) *family {
 	}
 	f.bases = append(f.bases, aggBase("b", 13, 0, []uint64{0, 1, 2, 3, 4, 5, 6, 7, 8, 9, 10, 31}))
 	f.bases = append(f.bases, aggBase("m", 70, 0, []uint64{0, 1}))
+	for _, sl := range []uint64{144, 178, 185, 191, 48 + 40} {
+		k := aggBase("w", sl, 0, []uint64{0})
+		if t := (sl / 48) * 48; k.u("bslot") > t {
+			k.setU("troot", 3).set("anc", fmtPairs(denseChain(t, k.u("bslot"))))
+		}
+		f.bases = append(f.bases, k)
+	}
+	for _, sl := range []uint64{13, 15, 6} {
+		f.bases = append(f.bases, aggBase("t", sl, 1, []uint64{0, 1}))
+	}
 	notSelected := func(k *kvs) {
 		c := mustCtx(k)
 		p := attCommon(k)
@@ -736,7 +777,11 @@ func syncMsgFamily(o hreg.Opts) *family {
 		// every slot of the last epoch of sync committee period 1 (epochs 4..7; the committees differ after the rotation
 		// at epoch 4), and the first slot of the next period
 		{"b", 56, 3}, {"b", 57, 40}, {"b", 58, 77}, {"b", 59, 101}, {"b", 60, 9}, {"b", 61, 64}, {"b", 62, 127}, {"b", 64, 5},
-		{"s", 56, 1}, {"s", 59, 14}, {"s", 62, 30}, {"s", 63, 7}, {"s", 95, 11}, {"s", 94, 20}} {
+		{"s", 56, 1}, {"s", 59, 14}, {"s", 62, 30}, {"s", 63, 7}, {"s", 95, 11}, {"s", 94, 20},
+		// sync period of 3 epochs (!= SYNC_COMMITTEE_SUBNET_COUNT): SLOTS_PER_EPOCH 4 (period 1 = slots 12..23) and 48
+		// (period 1 = slots 144..287)
+		{"t", 20, 1}, {"t", 21, 17}, {"t", 22, 40}, {"t", 23, 63}, {"t", 24, 5}, {"t", 13, 9},
+		{"w", 287, 2}, {"w", 286, 5}, {"w", 240, 9}, {"w", 288, 30}} {
 		c := mustGet(b.cfg)
 		v, sn := syncMember(c, b.slot, b.pick)
 		k := newKVs("syncmsg")
@@ -815,7 +860,8 @@ func contribFamily(o hreg.Opts) *family {
 	}{{"s", 26, 1, []uint64{0, 3, 7}}, {"b", 28, 2, []uint64{1, 2, 3, 30, 31}}, {"s", 24, 0, []uint64{5}}, {"s", 31, 3, []uint64{0, 1}},
 		{"b", 63, 0, []uint64{4, 9}}, {"s", 17, 2, []uint64{0, 1, 2, 3, 4, 5, 6, 7}},
 		{"b", 56, 1, []uint64{0, 5}}, {"b", 58, 3, []uint64{2}}, {"b", 60, 0, []uint64{7, 8, 9}}, {"b", 62, 2, []uint64{31}},
-		{"s", 57, 0, []uint64{1, 2}}, {"s", 61, 3, []uint64{0}}, {"s", 64, 1, []uint64{3, 4}}} {
+		{"s", 57, 0, []uint64{1, 2}}, {"s", 61, 3, []uint64{0}}, {"s", 64, 1, []uint64{3, 4}},
+		{"t", 22, 1, []uint64{0, 15}}, {"t", 23, 3, []uint64{7}}, {"t", 24, 0, []uint64{1, 2, 3}}, {"w", 287, 2, []uint64{0, 1}}} {
 		c := mustGet(b.cfg)
 		aggr, ok := pickSyncAggregator(c, b.slot, b.subidx, true)
 		if !ok {
